@@ -232,6 +232,11 @@ class C16:
             l = {k: lamps.get(k, 0) if lamps.get(k) is not None else 0 for k in LAMPS}
             d = [(x["spn"], x["fmi"], x.get("oc", 0) or 0) for x in dtcs]
             return l, d
+        # "each cycle until stop_send": the data callback is asked once per cycle - also for a cycle that finds the previous
+        # transfer still running - so exactly ncyc times in the ncyc + 1/2 cycles before stop_send
+        if n_supplied_at_stop < ncyc and not live:
+            V("cycle-skipped", "the DM1 data callback was asked %d time(s) in %d cycles of %.3f s before stop_send (cyclic sending "
+              "ended by itself)" % (n_supplied_at_stop, ncyc, cycle), site)
         sup = [norm(l, d) for (_, l, d) in supplied[:n_supplied_at_stop]]
         if len(supplied) > n_supplied_at_stop:
             V("callback-after-stop", "the DM1 data callback was invoked %d time(s) after stop_send returned" %
